@@ -179,7 +179,7 @@ func alphaOf(im image.Image) []int {
 func checkC07(args []string) {
 	run := vx.NewRun("C07", "translation_validation", args)
 	activeRun = run
-	run.Rule = "alpha pattern classes (binary masks, 2-4 / 5-16 / 17-256 levels, gradients, noise, a single transparent pixel in the last column/row/corner, fully transparent, opaque, smooth-noisy columns) x sizes 1..40 (odd and even widths) and one large picture x AlphaCompression {0,1,-1} x AlphaFiltering {0,1,2,-1} x AlphaQuality {0,1,50,70,71,99,100,-1} x Method 0..6 x Exact x source type; the ALPH chunk of every written file is decoded by the independent TLA+ reader (spec/Alph.tla + Vp8l.tla via TVAlph): with AlphaQuality 100 the plane equals the source alpha and the real decoder's; below 100 it equals the real decoder's, has at most the documented number of levels and keeps min and max. Opaque sources must give files without ALPH that decode opaque. distinct = distinct (pattern, size class, options) cases"
+	run.Rule = "alpha pattern classes (binary masks, 2-4 / 5-16 / 17-256 levels, gradients, noise, a single transparent pixel in the last column/row/corner, fully transparent, opaque, smooth-noisy columns) x sizes 1..40 (odd and even widths), every tenth case 64..111 x 64..93 at Method 3..6 with exact compressed alpha, and large pictures x AlphaCompression {0,1,-1} x AlphaFiltering {0,1,2,-1} x AlphaQuality {0,1,50,70,71,99,100,-1} x Method 0..6 x Exact x source type; the ALPH chunk of every written file is decoded by the independent TLA+ reader (spec/Alph.tla + Vp8l.tla via TVAlph): with AlphaQuality 100 the plane equals the source alpha and the real decoder's; below 100 it equals the real decoder's, has at most the documented number of levels and keeps min and max. Opaque sources must give files without ALPH that decode opaque. distinct = distinct (pattern, size class, options) cases"
 	run.Assumptions = []string{"the colour planes are not examined here (C04/C06)", "TLA+ decoding of compressed alpha is limited to planes up to about 1600 samples; larger ones are compared through the real decoder only"}
 	rng := rand.New(rand.NewSource(run.Seed))
 	var lines []alphLine
@@ -194,6 +194,10 @@ func checkC07(args []string) {
 		if i >= n {
 			w, h = 320+rng.Intn(40), 200+rng.Intn(30)
 		}
+		medium := i < n && i%10 == 7 // planes of 64..111 x 64..93: above the size thresholds of the lossless coder's optional stages
+		if medium {
+			w, h = 64+rng.Intn(48), 64+rng.Intn(30)
+		}
 		pat := alphaPatterns[rng.Intn(len(alphaPatterns))]
 		typ := []string{"NRGBA", "NRGBA", "RGBA", "generic", "NRGBA-view", "RGBA-view"}[rng.Intn(6)]
 		o := *webp.DefaultOptions()
@@ -203,6 +207,11 @@ func checkC07(args []string) {
 		o.AlphaCompression = []int{0, 1, -1}[rng.Intn(3)]
 		o.AlphaFiltering = []int{0, 1, 2, -1}[rng.Intn(4)]
 		o.AlphaQuality = []int{0, 1, 50, 70, 71, 99, 100, 100, 100, -1, -1}[rng.Intn(11)]
+		if medium { // exact alpha, compressed, at the effort levels that switch the optional stages on
+			o.Method = []int{6, 6, 5, 4, 3}[rng.Intn(5)]
+			o.AlphaQuality = []int{100, -1}[rng.Intn(2)]
+			o.AlphaCompression = []int{1, -1}[rng.Intn(2)]
+		}
 		q := o.AlphaQuality
 		if q < 0 {
 			q = 100
